@@ -295,11 +295,11 @@ impl<'a, T: 'a> RingBuffer<'a, T> {
     /// at the given offset past the last allocated element, and up to the given size.
     #[must_use]
     pub fn get_unallocated(&mut self, offset: usize, mut size: usize) -> &mut [T] {
-        let start_at = self.get_idx(self.length + offset);
         // We can't access past the end of unallocated data.
         if offset > self.window() {
             return &mut [];
         }
+        let start_at = self.get_idx(self.length + offset);
         // We can't enqueue more than there is free space.
         let clamped_window = self.window() - offset;
         if size > clamped_window {
@@ -350,11 +350,11 @@ impl<'a, T: 'a> RingBuffer<'a, T> {
     /// at the given offset past the first allocated element, and up to the given size.
     #[must_use]
     pub fn get_allocated(&self, offset: usize, mut size: usize) -> &[T] {
-        let start_at = self.get_idx(offset);
         // We can't read past the end of the allocated data.
         if offset > self.length {
             return &mut [];
         }
+        let start_at = self.get_idx(offset);
         // We can't read more than we have allocated.
         let clamped_length = self.length - offset;
         if size > clamped_length {
